@@ -4,6 +4,7 @@ from __future__ import annotations
 import contextlib
 import csv
 import io
+import itertools
 import math
 import os
 import re
@@ -16,42 +17,72 @@ from common import Ctx, enc_text, exc_name
 PID = "C20"
 PROPS_MODULE = "NumbersModel.Props.C20"
 THEOREMS = [f"NumbersModel.Props.C20.{t}" for t in (
+    "csv_codec_roundtrip", "reader_is_character_machine", "reader_errors",
     "row_survives_dict", "text_cells_identical", "special_spellings_stay_text", "numbers_numerically_equal", "coerce_total",
-    "grid_roundtrip_header", "reverse_reverses_data")]
-PARTIAL = {"converter_total": "'conversion either succeeds or reports a one-line error' is not a theorem: csv/argparse/zip "
-                              "behaviour is outside the model; the oracle checks it on every generated grid",
-           "grid_roundtrip_header": "whole-grid theorem proved for header mode without options; --no-header/--reverse/--whitespace "
-                                    "are covered per row (reverse_reverses_data) and by the correspondence"}
-RULE = ("seeded rectangular grids of 1..40 x 1..12 cells drawn from hostile text (delimiters, quotes, CR/LF, non-ASCII, astral), "
-        "numeric spellings of <= 15 significant digits (ints, decimals, thousands commas, exponents, signs, underscores, "
-        "non-ASCII digits, surrounding blanks), special-float spellings (nan, inf, infinity, 1e400, signs, case variants) and "
-        "empties x header/--no-header x --whitespace x --reverse, through the real csv2numbers main() and cat-numbers -b main() "
-        "in-process. Distinct by grid text + options; non-trivial = grid has at least one data cell")
-ASSUMPTIONS = ["Python csv reader/writer are mutually inverse for the excel dialect (used as reference reader)",
-               "float(), str.strip, re.sub are supplied to the model as data computed by the interpreter",
-               "numbers of more than 15 significant digits are outside the domain (the library documents rounding to 15)"]
+    "grid_roundtrip", "grid_roundtrip_written", "reverse_reverses_data",
+    "converter_total", "converter_escapes", "version_exits_zero")]
+PARTIAL: dict[str, str] = {}
+RULE = ("(a) codec: every text of <= 5 characters over {a , \" CR LF blank} through csv.reader (strict, non-strict, field limit 2) and "
+        "through the line iterator of a newline='' stream; every list of <= 2 lines of <= 2 such characters; every grid of <= 2 rows "
+        "x <= 2 cells x cell strings of <= 2 such characters (1x1: <= 3) through csv.writer [quick: the 2-row grids with cells of "
+        "length 2 are sampled, thorough: all 3.6 million]; seeded hostile grids (Unicode, NUL, U+2028, U+0085, field-limit boundary) "
+        "through a real file; (b) pipeline: seeded rectangular grids of 1..40 x 1..12 cells drawn from hostile text, numeric "
+        "spellings of <= 15 significant digits, special-float spellings and empties, written either by csv.writer or by a hostile "
+        "CSV formatter (forced quotes, LF / CR / CRLF / mixed terminators, missing final terminator), x header/--no-header x "
+        "--whitespace x --reverse, through the real csv2numbers main() and cat-numbers -b main() in-process; (c) main(): scripted "
+        "faults (each of ~30 exception classes at each external call site, seeded combinations, two files) and CSV texts "
+        "(empty, blank, malformed, ragged, oversize) through the real main() with open/Document/Path replaced by scripted fakes, "
+        "and a dozen real cases (directory, missing file, undecodable bytes, unknown encoding, unwritable output). "
+        "Distinct by request line; non-trivial = grid has at least one data cell / scenario reaches the conversion loop")
+ASSUMPTIONS = [
+    "float(), str.strip, re.sub and the exporter's number printer are supplied to the model as data computed by the interpreter",
+    "numbers of more than 15 significant digits are outside the domain (the library documents rounding to 15)",
+    "saving and reopening the document is the identity on text and number cells (C01)",
+    "sys.stdout does not translate line endings (POSIX); on Windows csv.writer's CRLF would be written CR CR LF",
+    "messages printed by main() are single lines: file names and OS/codec messages contain no line break",
+    "argparse errors (unknown options, malformed --date/--rename/--transform/--delete arguments) are usage errors outside "
+    "the conversion; --date/--transform/--rename/--delete are outside the property's option set and outside the model",
+]
 MANIFEST = {
-    "text": "Thin: the per-cell coercion and the header/row pipeline are modelled; text_cells_identical, "
-            "special_spellings_stay_text (nan/inf/overflow spellings stay text), numbers_numerically_equal (given a re-readable "
-            "number printer), row_survives_dict (a row survives the header-keyed dict exactly when header cells are distinct; "
-            "counter-example proved for duplicates), grid_roundtrip_header, reverse_reverses_data are Lean theorems. The rest of "
-            "the statement (csv parsing, file writing, exit status) is reached by the implementation-level oracle on generated "
-            "grids through the real entry points — exploration, labelled as such.",
-    "note": "csv, float(), dateutil, argparse and the whole save/open path (C01) are outside the model.",
-    "technique": "Lean 4 proof of the decision logic + differential correspondence and end-to-end oracle through both CLI mains",
+    "text": "Core proved, glue assumed. (1) The CSV codec both tools use is modelled from CPython's _csv.c: csv.writer of the excel "
+            "dialect (QUOTE_MINIMAL, doubled quotes, CRLF, the lone empty field written as \"\") and csv.reader as the "
+            "character state machine of parse_process_char (START_RECORD ... EAT_CRNL, strict and non-strict, field size limit) "
+            "over the physical lines of a newline='' file; csv_codec_roundtrip proves reader(writer(grid)) = grid for every grid "
+            "of Unicode cell texts (quotes, commas, CR, LF, CRLF, blanks, empty cells, empty rows, the single empty cell) up to "
+            "the field limit, so the reference-reader assumption of the earlier version is now a theorem; reader_errors: the "
+            "reader raises only csv.Error. (2) grid_roundtrip: for all of header/--no-header x --whitespace x --reverse and any "
+            "CSV text the importer parses to a rectangular grid (header cells pairwise distinct in header mode; the "
+            "counter-example for a repeated header cell is proved and is the known finding), export(import(text)) is a text "
+            "that csv.reader parses to the expected grid: header unchanged, rows in order or reversed, every data cell as the "
+            "per-cell theorems say (text_cells_identical, special_spellings_stay_text, numbers_numerically_equal given a "
+            "re-readable number printer, coerce_total). (3) converter_total over a model of main()/Converter._read_csv/save in "
+            "which every external call (open, the file iterator, Path.with_suffix, Document(), Table.write, Document.save) "
+            "returns or raises an arbitrary exception: if they raise only FileNotFoundError/csv.Error/OSError/UnicodeError/"
+            "LookupError (reading), OSError (saving) or RuntimeError, main returns with exit status 0 and an empty stderr or "
+            "prints exactly one line to stderr and exits 1; converter_escapes names exactly which exceptions leave main as a "
+            "traceback for arbitrary externals. False on the pinned tree (witnesses proved for the `pinned` variant and "
+            "reproduced on the real code: StopIteration/IndexError on an empty file, IsADirectoryError, UnicodeDecodeError, "
+            "LookupError, FileNotFoundError on save, IndexError for a blank first line or > 1000 columns); "
+            "fixes/C20-one-line-errors.patch repairs them.",
+    "note": "glue assumed: float()/re/sigfig (parameters with stated laws), C01 for the save/open step, argparse. "
+            "The whole-grid theorem composes codec, converter and exporter models; each is tied separately and end to end "
+            "(model text vs real stdout text, byte for byte).",
+    "technique": "Lean 4 proof (state-machine invariant by induction over rows/fields/characters; composition; case analysis of the "
+                 "except clauses) + exhaustive/seeded differential correspondence against the running interpreter's csv module, "
+                 "both CLI mains in-process, and scripted fault injection into main()",
 }
 
-MARK = ""
+ALPHA = ["a", ",", '"', "\r", "\n", " "]
 TEXTS = ["a", "abc def", "x,y", 'say "hi"', '"', '""', "line1\nline2", "cr\rlf", "crlf\r\nend", "\n", "\r", " lead", "trail ", "  ",
          "tab\there", "é", "日本語", "😀", "𝔘𝔫𝔦", "a;b", "it's", "=SUM(A1)", "#REF!", "TRUE", "false", "2020-01-01", "12:30", "0x10",
          "1__0", "_1", "1_", "1e", "e5", "--1", "1-", "1.2.3", ".", "-", "+", "٫", "１２a", "NULL", "None", "N/A", "null\x00byte"[:4],
-         "very long " * 30, "ﬁ", "İ", " ", " x", "a​b"]
+         "very long " * 30, "ﬁ", "İ", " ", " x", "a​b"]
 NUMS = ["0", "1", "-1", "+5", "42", "007", "1.5", "-0.25", ".5", "5.", "1e5", "1E-7", "2.5e+10", "1,234", "1,234,567.89", "12,34",
         "1_000", "1_0.5_0", "١٢", "१२३", "１２", "٣.٥", " 12", "12 ", "\t7", "7\n", "-0", "0.0", "1e22", "1e-290", "9.99999999999999e289",
         "123456789012345", "0.123456789012345", "99999999999999.9", "1e15", "0.1", "0.2", "0.3", "1.1", "2.675", "1e-5", "-1e-9"]
 SPECIAL = ["nan", "NaN", "NAN", "inf", "-inf", "+inf", "Inf", "INF", "infinity", "-Infinity", "1e400", "-1e999", "1e309", " nan ",
            "n,an", "in,f", "+nan", "-nan", "inf\n", "١e٤٠٠"]
-
+CODEC_EXTRA = ["\x00", "\x0b", "\x0c", "\x1c", "\x1d", "\x1e", "\x85", " ", " ", "﻿", "é", "😀", "\t", ";", "'", "\\"]
 
 # minimised past failures and the recorded finding, always run first: (grid, no_header, reverse, whitespace)
 CORPUS = [
@@ -63,6 +94,22 @@ CORPUS = [
     ((("only header", "b"),), False, False, False),
     ((("1",),), True, False, False),
     ((("a ", " b  c"), (" 2 ", "x\t y")), False, True, True),
+    ((("h",), ("",)), False, False, False),                      # a data row that is one empty cell: written ""
+    ((("",), ("",)), True, False, False),
+    ((("h1", "h2"), ("", "")), False, True, False),
+]
+# raw CSV texts (not writer-produced): (text, no_header, reverse, whitespace)
+RAW_CORPUS = [
+    ('h1,h2\n1,2\n', False, False, False),
+    ('h1,h2\r1,2', False, False, False),
+    ('"h1","h2"\r\n"a""b"," c"\r\n', False, False, False),
+    ('a"b,c\r\nd,e"f"\r\n', True, False, False),                 # quotes inside unquoted fields are data
+    (' "x",y\r\n1,2\r\n', False, False, False),                  # a blank before the quote: the quote is data
+    ('"a"b,c\r\n', False, False, False),                          # strict: ',' expected after '"'
+    ('h\r\n"unterminated\r\n', False, False, False),              # strict: unexpected end of data
+    ('h1,h2\r\nx\r\ny,z,w\r\n', False, False, False),            # ragged rows (outside the property's domain; model only)
+    ('h1,h2\r\n\r\nu,v\r\n', False, False, False),               # a blank line is an empty row
+    ('h,h\r\na,b\r\n', True, False, False),
 ]
 
 
@@ -83,11 +130,219 @@ def norm_ws(v: str) -> str:
     return re.sub(r"\s+", " ", v.strip())
 
 
+# ---------------------------------------------------------------------------------------------------
+# (a) the codec: running interpreter's csv module vs the Lean model
+# ---------------------------------------------------------------------------------------------------
+MSG_KIND = (("expected after", "Error:delimiter-expected-after-quote"), ("unexpected end of data", "Error:unexpected-end-of-data"),
+            ("new-line character seen", "Error:new-line-character-seen-in-unquoted-field"),
+            ("field larger than field limit", "Error:field-larger-than-field-limit"))
+
+
+def err_kind(msg: str) -> str:
+    for k, v in MSG_KIND:
+        if k in msg:
+            return v
+    return "Error:?" + msg[:60]
+
+
+def show_grid(g) -> str:
+    return "ok" if not g else "ok " + " ".join("[" + " ".join(enc_text(c) for c in row) + "]" for row in g)
+
+
+def enc_grid(g) -> str:
+    return " ".join([str(len(g))] + [" ".join([str(len(r))] + [enc_text(c) for c in r]) for r in g])
+
+
+def impl_write(g) -> str:
+    s = io.StringIO(newline="")
+    w = csv.writer(s, dialect="excel")
+    for r in g:
+        w.writerow(r)
+    return s.getvalue()
+
+
+@contextlib.contextmanager
+def field_limit(limit):
+    old = csv.field_size_limit()
+    if limit is not None:
+        csv.field_size_limit(limit)
+    try:
+        yield
+    finally:
+        csv.field_size_limit(old)
+
+
+def impl_read(source, strict: bool, limit=None) -> str:
+    """source: a text (read through a newline='' stream) or a list of line strings"""
+    it = io.StringIO(source, newline="") if isinstance(source, str) else source
+    with field_limit(limit):
+        try:
+            return show_grid(list(csv.reader(it, dialect="excel", strict=strict)))
+        except csv.Error as e:
+            return "err " + err_kind(str(e))
+
+
+def strings(maxlen, alpha=ALPHA):
+    for n in range(maxlen + 1):
+        for t in itertools.product(alpha, repeat=n):
+            yield "".join(t)
+
+
+def codec_oracle(ctx: Ctx, g, where: str):
+    """the property of the codec, on the real csv module only"""
+    t = impl_write(g)
+    for strict in (True, False):
+        try:
+            back = list(csv.reader(io.StringIO(t, newline=""), dialect="excel", strict=strict))
+        except csv.Error as e:
+            back = f"csv.Error: {e}"
+        if back != [list(r) for r in g]:
+            ctx.violation("csv-codec-roundtrip", f"{where}: csv.reader(strict={strict}) of csv.writer output gives {back!r:.200}",
+                          {"codec_grid": [list(r) for r in g]})
+            return
+
+
+def codec_writer_chunk(task):
+    """2-row grids over cells of length <= 2 (thorough: one first row against every second row)"""
+    seed, first_rows = task
+    sub = Ctx(PID, "quick", seed)
+    rows = ROWS2()
+    req, out = [], []
+    for r1 in first_rows:
+        for r2 in rows:
+            g = [r1, r2]
+            req.append("csv csvw " + enc_grid(g))
+            out.append("ok " + enc_text(impl_write(g)))
+            codec_oracle(sub, g, "2-row grid")
+    model = common.run_model(req)
+    bad = [{"request": r, "impl": a, "model": b} for r, a, b in zip(req, out, model) if a != b]
+    return common.sub_result(sub, (len(req), bad[:5], len(bad)))
+
+
+_ROWS2 = None
+
+
+def ROWS2():
+    global _ROWS2
+    if _ROWS2 is None:
+        cells = list(strings(2))
+        _ROWS2 = [[]] + [[a] for a in cells] + [[a, b] for a in cells for b in cells]
+    return _ROWS2
+
+
+def run_codec(ctx: Ctx):
+    rng = ctx.rng
+    # --- reader on arbitrary (also malformed) texts, exhaustive to length 5; the line iterator
+    req, out, lreq, lout = [], [], [], []
+    for t in strings(5):
+        e = enc_text(t)
+        for strict in (0, 1):
+            req.append(f"csv csvr {strict} 131072 {e}")
+            out.append(impl_read(t, bool(strict)))
+        req.append(f"csv csvr 0 2 {e}")
+        out.append(impl_read(t, False, 2))
+        ls = list(io.StringIO(t, newline=""))
+        lreq.append(f"csv csvlines {e}")
+        lout.append("ok" if not ls else "ok " + " ".join(enc_text(x) for x in ls))
+    ctx.correspond("csv.reader over a newline='' stream: all texts of <= 5 chars over {a , \" CR LF blank} x strict/non-strict/limit 2",
+                   req, out, exhaustive=True)
+    ctx.correspond("line iterator of a newline='' stream: all texts of <= 5 chars", lreq, lout, exhaustive=True)
+    # --- reader over explicit lists of lines (embedded line breaks reach EAT_CRNL)
+    req, out = [], []
+    short = list(strings(2))
+    for lines in [[a] for a in strings(4)] + [[a, b] for a in short for b in short]:
+        for strict in (0, 1):
+            req.append(f"csv csvrl {strict} 131072 {len(lines)} " + " ".join(enc_text(x) for x in lines))
+            out.append(impl_read(list(lines), bool(strict)))
+    ctx.correspond("csv.reader over a list of lines: 1 line of <= 4 chars, 2 lines of <= 2 chars", req, out, exhaustive=True)
+    # --- writer: all 1-row grids (<= 2 cells of <= 2 chars; 1x1 to 3 chars), all 2-row grids with cells of <= 1 char
+    rows = ROWS2()
+    rows1 = [[]] + [[a] for a in strings(1)] + [[a, b] for a in strings(1) for b in strings(1)]
+    grids = [[]] + [[r] for r in rows] + [[[c]] for c in strings(3)] + [[r1, r2] for r1 in rows1 for r2 in rows1]
+    req, out = [], []
+    for g in grids:
+        req.append("csv csvw " + enc_grid(g))
+        out.append("ok " + enc_text(impl_write(g)))
+        codec_oracle(ctx, g, "small grid")
+    ctx.correspond("csv.writer: all grids of 1 row x <= 2 cells x <= 2 chars, 1x1 x <= 3 chars, 2 rows x <= 2 cells x <= 1 char",
+                   req, out, exhaustive=True)
+    # --- 2 rows x <= 2 cells x <= 2 chars: 1893^2 grids; quick samples, thorough enumerates
+    if ctx.quick:
+        req, out = [], []
+        for _ in range(30000):
+            g = [rng.choice(rows), rng.choice(rows)]
+            req.append("csv csvw " + enc_grid(g))
+            out.append("ok " + enc_text(impl_write(g)))
+            codec_oracle(ctx, g, "2-row grid")
+        ctx.correspond("csv.writer: grids of 2 rows x <= 2 cells x <= 2 chars (sampled; exhaustive in the thorough tier)", req, out)
+    else:
+        name = "csv.writer: all grids of 2 rows x <= 2 cells x <= 2 chars"
+        tasks = [(ctx.seed, rows[i:i + 8]) for i in range(0, len(rows), 8)]
+        total = nbad = 0
+        for n, bad, k in common.run_parallel(ctx, codec_writer_chunk, tasks):
+            total += n
+            nbad += k
+            for b in bad:
+                if len(ctx.disagreements) < 50:
+                    ctx.disagreements.append(dict(b, subspace=name))
+        ctx.subspaces[name] = {"cases": total, "exhaustive": True, "disagreements": nbad}
+        ctx.evaluations += total
+    # --- seeded hostile grids through a real file opened with newline='' (ties splitLines to the file object)
+    pool = TEXTS + NUMS[:8] + SPECIAL[:4] + CODEC_EXTRA + ["", "", ",", '"', "\r\n", "\n\r", '""', '","', "a\rb\nc\r\nd"]
+    req, out = [], []
+    with tempfile.TemporaryDirectory() as d:
+        path = os.path.join(d, "t.csv")
+        for i in range(300 if ctx.quick else 3000):
+            nr = rng.randrange(0, 6)
+            g = []
+            for _ in range(nr):
+                nc = rng.choice([0, 1, 1, 2, 3, 5])
+                g.append([rng.choice(pool) if rng.random() < 0.8 else "".join(rng.choice(ALPHA + CODEC_EXTRA) for _ in range(rng.randrange(0, 7)))
+                          for _ in range(nc)])
+            t = impl_write(g)
+            req.append("csv csvw " + enc_grid(g))
+            out.append("ok " + enc_text(t))
+            codec_oracle(ctx, g, "hostile grid")
+            with open(path, "w", newline="", encoding="utf-8") as f:
+                f.write(t)
+            strict = i % 2
+            with open(path, encoding="utf-8", newline="") as f:
+                try:
+                    got = show_grid(list(csv.reader(f, dialect="excel", strict=bool(strict))))
+                except csv.Error as e:
+                    got = "err " + err_kind(str(e))
+            req.append(f"csv csvr {strict} 131072 {enc_text(t)}")
+            out.append(got)
+            # the same text damaged at one position: the reader on near-well-formed input
+            if t:
+                k = rng.randrange(len(t))
+                t2 = t[:k] + rng.choice(ALPHA) + t[k + rng.randrange(0, 2):]
+                lim = rng.choice([131072, 131072, 3, 8])
+                req.append(f"csv csvr {strict} {lim} {enc_text(t2)}")
+                out.append(impl_read(t2, bool(strict), lim))
+    # the field-limit boundary with the real default limit
+    lim = csv.field_size_limit()
+    for n in (lim, lim + 1):
+        for cell in ("x" * n, '"' + "y" * (n - 1)):
+            t = impl_write([[cell, "z"]])
+            req.append(f"csv csvr 1 {lim} {enc_text(t)}")
+            out.append(impl_read(t, True))
+    ctx.correspond("seeded hostile grids (Unicode, NUL, U+2028, field-limit boundary) written, read through a real newline='' file, damaged",
+                   req, out)
+
+
+# ---------------------------------------------------------------------------------------------------
+# (b) the pipeline through both mains
+# ---------------------------------------------------------------------------------------------------
 def run_main(mod, argv):
     old = sys.argv
     sys.argv = argv
     out, err = io.StringIO(), io.StringIO()
     code, exc = 0, None
+    # _csv2numbers does `from sys import exit, stderr`: its `stderr` is bound at import time
+    saved = getattr(mod, "stderr", None)
+    if saved is not None:
+        mod.stderr = err
     try:
         with contextlib.redirect_stdout(out), contextlib.redirect_stderr(err):
             mod.main()
@@ -97,17 +352,20 @@ def run_main(mod, argv):
         exc = e
     finally:
         sys.argv = old
+        if saved is not None:
+            mod.stderr = saved
     return code, out.getvalue(), err.getvalue(), exc
 
 
-def roundtrip(grid, opts, workdir):
-    """csv2numbers main() then cat-numbers -b main(), in-process. Returns ('ok', exported grid) | ('exit', code, stderr) | ('crash', name)."""
+def roundtrip(text, opts, workdir):
+    """csv2numbers main() on a file with this text, then cat-numbers -b main(), in-process.
+    Returns ('ok', stdout text) | ('exit', code, stderr) | ('crash', tool, name, message)."""
     from numbers_parser import _cat_numbers as cat
     from numbers_parser import _csv2numbers as c2n
     inp = os.path.join(workdir, "in.csv")
     outp = os.path.join(workdir, "out.numbers")
     with open(inp, "w", newline="", encoding="utf-8") as f:
-        csv.writer(f, dialect="excel").writerows(grid)
+        f.write(text)
     if os.path.exists(outp):
         os.remove(outp)
     code, _, err, exc = run_main(c2n, ["csv2numbers", *opts, inp, "-o", outp])
@@ -120,7 +378,7 @@ def roundtrip(grid, opts, workdir):
         return ("crash", "cat-numbers", exc_name(exc), str(exc)[:120])
     if code != 0:
         return ("exit", code, err)
-    return ("ok", list(csv.reader(io.StringIO(out, newline=""), dialect="excel")))
+    return ("ok", out)
 
 
 def gen_grid(rng, small):
@@ -147,6 +405,27 @@ def gen_grid(rng, small):
     return grid
 
 
+def hostile_format(rng, grid) -> str:
+    """a well-formed CSV text for `grid` that csv.writer would not produce: unnecessary quotes, LF / CR / CRLF / mixed
+    terminators, no final terminator"""
+    term_mode = rng.choice(["\r\n", "\n", "\r", None])
+    parts = []
+    for i, row in enumerate(grid):
+        cells = []
+        for v in row:
+            need = any(ch in v for ch in ',"\r\n') or (v == "" and len(row) == 1)
+            if need or rng.random() < 0.3:
+                cells.append('"' + v.replace('"', '""') + '"')
+            else:
+                cells.append(v)
+        term = term_mode or rng.choice(["\r\n", "\n", "\r"])
+        last = i == len(grid) - 1
+        if last and rng.random() < 0.4:
+            term = ""
+        parts.append(",".join(cells) + term)
+    return "".join(parts)
+
+
 def expected(grid, no_header, reverse, ws):
     """The property, independently of library and model: list of rows of ('T', text) | ('F', value)."""
     def cell(v):
@@ -167,63 +446,77 @@ def one(task):
     seed, idx = task
     sub = Ctx(PID, "quick", seed * 1_000_003 + (idx if isinstance(idx, int) else 0))
     rng = sub.rng
+    text = None
     if isinstance(idx, int):
         grid = gen_grid(rng, small=(idx % 3 != 0))
         no_header = idx % 2 == 1
         reverse = idx % 5 == 2
         ws = idx % 7 == 3
+        raw = idx % 4 == 1
+    elif idx[0] == "raw":
+        _, text, no_header, reverse, ws = idx
+        grid, raw, idx = None, True, 10**9 + 11 * 7
     else:  # corpus entry: (grid, no_header, reverse, ws)
         grid, no_header, reverse, ws = idx
         grid = [list(r) for r in grid]
-        idx = 10**9 + 11 * 7
-    dup_header = not no_header and len(set(grid[0])) != len(grid[0])
-    if dup_header and idx % 11 != 0:
-        # duplicate header cells are a recorded finding; keep a few, make the rest distinct
-        grid[0] = [f"{v}#{i}" for i, v in enumerate(grid[0])]
-        dup_header = False
+        raw, idx = False, 10**9 + 11 * 7
+    if grid is not None:
+        dup = not no_header and len(set(grid[0])) != len(grid[0])
+        if dup and idx % 11 != 0:
+            # duplicate header cells are a recorded finding; keep a few, make the rest distinct
+            grid[0] = [f"{v}#{i}" for i, v in enumerate(grid[0])]
+        text = hostile_format(rng, grid) if raw else impl_write(grid)
+    # the reference reading of the input text (strict, as the converter sets it)
+    try:
+        parsed = list(csv.reader(io.StringIO(text, newline=""), dialect="excel", strict=True))
+        parse_err = None
+    except csv.Error as e:
+        parsed, parse_err = None, err_kind(str(e))
+    if grid is not None and parsed != grid:
+        raise AssertionError(f"harness: generated text does not parse to its grid: {text!r} -> {parsed!r} != {grid!r}")
     opts = (["--no-header"] if no_header else []) + (["--reverse"] if reverse else []) + (["--whitespace"] if ws else [])
-    inp = {"grid": grid, "opts": opts}
+    inp = {"text": text, "opts": opts}
     with tempfile.TemporaryDirectory() as d:
-        res = roundtrip(grid, opts, d)
-    exp = expected(grid, no_header, reverse, ws)
-    # ---- protocol line for the model
+        res = roundtrip(text, opts, d)
+    in_domain = bool(parsed) and len(parsed[0]) >= 1 and all(len(r) == len(parsed[0]) for r in parsed)
+    dup_header = in_domain and not no_header and len(set(parsed[0])) != len(parsed[0])
+    exp = expected(parsed, no_header, reverse, ws) if in_domain else None
+    # ---- the cell table for the model: what float()/re.sub/the number printer do is data
     ids: dict = {}
-    cells = []
-    for row in grid:
-        for v in row:
-            v2 = norm_ws(v)
-            k, x = classify(v2 if ws else v)
-            if k == "F":
-                ids.setdefault(repr(x), len(ids))
-                k = f"F{ids[repr(x)]}"
-            cells.append(f"{enc_text(v)} {enc_text(v2)} {k}")
-    req = f"csv convert {int(no_header)} {int(reverse)} {int(ws)} {len(grid)} {len(grid[0])} " + " ".join(cells)
-    # ---- implementation outcome, canonicalised
+    render: dict = {}
+    got = None
+    if res[0] == "ok":
+        got = list(csv.reader(io.StringIO(res[1], newline=""), dialect="excel"))
+    # ---- implementation outcome, canonicalised; the property oracle
+    conv_out = None
     if res[0] == "crash":
-        out = f"err {res[2]}"
+        ie_out = f"err {res[2]}"
         sub.violation(f"csv-crash-{res[1]}-{res[2]}", f"{res[1]} crashed with {res[2]}: {res[3]}", inp)
     elif res[0] == "exit":
-        out = f"exit {res[1]}"
         msg = res[2].strip()
-        if "\n" in msg or not msg:
+        ie_out = "err " + ("RuntimeError" if "no rows in CSV file" in msg else err_kind(msg))
+        if "\n" in msg or not msg or res[1] == 0:
             sub.violation("csv-error-not-one-line", f"exit {res[1]} with stderr {msg[:200]!r}", inp)
-        else:
+        elif in_domain:
             sub.violation("csv-wellformed-input-refused", f"well-formed CSV refused: {msg[:200]}", inp)
     else:
-        got = res[1]
+        ie_out = "ok " + enc_text(res[1])
         canon_rows = []
         bad = None
-        if len(got) != len(exp) or any(len(a) != len(b) for a, b in zip(got, exp)):
+        if exp is not None and (len(got) != len(exp) or any(len(a) != len(b) for a, b in zip(got, exp))):
             bad = ("csv-grid-shape", f"exported {len(got)}x{len(got[0]) if got else 0} grid, expected {len(exp)}x{len(exp[0])}: got {got[:3]!r}")
         for i, row in enumerate(got):
             crow = []
             for j, t in enumerate(row):
-                e = exp[i][j] if i < len(exp) and j < len(exp[i]) else None
+                e = exp[i][j] if exp is not None and i < len(exp) and j < len(exp[i]) else None
                 if e is not None and e[0] == "F":
                     try:
                         same = float(t) == e[1]
                     except ValueError:
                         same = False
+                    ids.setdefault(repr(e[1]), len(ids))
+                    if same:
+                        render.setdefault(ids[repr(e[1])], t)
                     crow.append(f"#{ids[repr(e[1])]}" if same else enc_text(t))
                     if not same and bad is None:
                         bad = ("csv-number-changed", f"cell ({i},{j}): number {e[1]!r} exported as {t!r}")
@@ -233,39 +526,404 @@ def one(task):
                         kind = classify(e[1])[0]
                         bad = ("csv-special-float-not-text" if kind in "NI" else "csv-text-changed",
                                f"cell ({i},{j}): text {e[1]!r} exported as {t!r}")
-            canon_rows.append(" ".join(crow))
-        out = "ok " + "|".join(canon_rows)
+            canon_rows.append("[" + " ".join(crow) + "]")
+        conv_out = "ok " + " ".join(canon_rows)
         if bad is not None:
             sig = bad[0]
             if dup_header:
                 sig = "csv-duplicate-header-collapses-columns"
-            elif sig == "csv-grid-shape" and (len(grid[0]) == 1 or len(exp) == 1):
-                sig = "csv-grid-shape-minimum-2x2"
             sub.violation(sig, bad[1], inp)
+    cells = []
+    seen = set()
+    for row in parsed or []:
+        for v in row:
+            if v in seen:
+                continue
+            seen.add(v)
+            v2 = norm_ws(v)
+            k, x = classify(v2 if ws else v)
+            if k == "F":
+                n = ids.setdefault(repr(x), len(ids))
+                k = f"F{n}:{enc_text(render.get(n, '?'))}"
+            cells.append(f"{enc_text(v)} {enc_text(v2)} {k}")
+    table = f"table {len(cells)} " + " ".join(cells)
+    flags = f"{int(no_header)} {int(reverse)} {int(ws)}"
+    # outside the property's domain (ragged rows, repeated header cells) cells move, so numbers cannot be identified by
+    # position: such inputs take part in the correspondence only when they hold no number
+    has_num = any(" F" in c for c in cells)
+    reqs = []
+    if (in_domain and not dup_header) or not has_num:
+        reqs.append((f"csv ie {flags} 1 {csv.field_size_limit()} {enc_text(text)} {table}", ie_out))
+        if conv_out is not None and parsed is not None:
+            reqs.append((f"csv convert {flags} {enc_grid(parsed)} {table}", conv_out))
     sub.count("grids", 1)
-    if sum(len(r) for r in grid[(0 if no_header else 1):]) > 0:
-        sub.mark(req)
+    if parsed and sum(len(r) for r in parsed[(0 if no_header else 1):]) > 0:
+        sub.mark((text, flags))
     if idx < 3:
-        sub.sample({"grid": grid[:4], "opts": opts, "outcome": out[:200]})
-    return common.sub_result(sub, (req, out, dup_header))
+        sub.sample({"text": text[:200], "opts": opts, "outcome": ie_out[:200]})
+    return common.sub_result(sub, reqs)
+
+
+def run_pipeline(ctx: Ctx):
+    n = 1500 if ctx.quick else 12000
+    tasks = [(ctx.seed, c) for c in CORPUS] + [(ctx.seed, ("raw",) + c) for c in RAW_CORPUS] + [(ctx.seed, i) for i in range(n)]
+    ie_req, ie_out, cv_req, cv_out = [], [], [], []
+    for reqs in common.run_parallel(ctx, one, tasks):
+        for r, o in reqs:
+            if r.startswith("csv ie"):
+                ie_req.append(r)
+                ie_out.append(o)
+            else:
+                cv_req.append(r)
+                cv_out.append(o)
+    ctx.correspond("text printed by cat-numbers -b after csv2numbers (in-process mains) vs importExport, byte for byte", ie_req, ie_out, keep=0)
+    ctx.correspond("exported grid after csv2numbers + cat-numbers -b vs convert/padTable (numbers by identity)", cv_req, cv_out, keep=0)
+    ctx.subspaces.pop("grids", None)
+    ctx.evaluations -= len(tasks)
+
+
+# ---------------------------------------------------------------------------------------------------
+# (c) main(): scripted fault injection
+# ---------------------------------------------------------------------------------------------------
+def exc_vocabulary():
+    from numbers_parser import FileError, FileFormatError, UnsupportedError
+    voc = {
+        "FileNotFoundError": lambda: FileNotFoundError(2, "No such file or directory", "x"),
+        "PermissionError": lambda: PermissionError(13, "Permission denied", "x"),
+        "IsADirectoryError": lambda: IsADirectoryError(21, "Is a directory", "x"),
+        "NotADirectoryError": lambda: NotADirectoryError(20, "Not a directory", "x"),
+        "FileExistsError": lambda: FileExistsError(17, "File exists", "x"),
+        "TimeoutError": lambda: TimeoutError("timed out"),
+        "OSError": lambda: OSError(5, "Input/output error"),
+        "UnicodeDecodeError": lambda: UnicodeDecodeError("utf-8", b"\xff", 0, 1, "invalid start byte"),
+        "UnicodeError": lambda: UnicodeError("bad"),
+        "LookupError": lambda: LookupError("unknown encoding: nope"),
+        "IndexError": lambda: IndexError("list index out of range"),
+        "KeyError": lambda: KeyError("k"),
+        "ValueError": lambda: ValueError("bad value"),
+        "TypeError": lambda: TypeError("bad type"),
+        "RuntimeError": lambda: RuntimeError("runtime"),
+        "RecursionError": lambda: RecursionError("maximum recursion depth exceeded"),
+        "NotImplementedError": lambda: NotImplementedError("nope"),
+        "Error": lambda: csv.Error("line contains NUL"),
+        "MemoryError": lambda: MemoryError(),
+        "StopIteration": lambda: StopIteration(),
+        "AttributeError": lambda: AttributeError("attr"),
+        "ZeroDivisionError": lambda: ZeroDivisionError("division by zero"),
+        "EOFError": lambda: EOFError(),
+        "OverflowError": lambda: OverflowError("too large"),
+        "AssertionError": lambda: AssertionError("assert"),
+        "FileError": lambda: FileError("file"),
+        "FileFormatError": lambda: FileFormatError("format"),
+        "UnsupportedError": lambda: UnsupportedError("unsupported"),
+        "BufferError": lambda: BufferError("buffer"),
+        "ArithmeticError": lambda: ArithmeticError("arith"),
+    }
+    return voc
+
+
+def class_lists(voc):
+    bases = (FileNotFoundError, csv.Error, OSError, UnicodeError, LookupError, RuntimeError)
+    out = []
+    for b in bases:
+        names = sorted(n for n, mk in voc.items() if isinstance(mk(), b))
+        out.append(f"{len(names)} " + " ".join(names) if names else "0")
+    return "cls " + " ".join(out)
+
+
+# which injected classes the code is expected to turn into a one-line error, per call site (the hypothesis `Tame`
+# of converter_total, written down independently for the oracle)
+def tame(site: str, e: BaseException) -> bool:
+    if isinstance(e, RuntimeError):
+        return site != "derive"
+    if site in ("open", "iter"):
+        return isinstance(e, (csv.Error, OSError, UnicodeError, LookupError))
+    if site == "save":
+        return isinstance(e, OSError)
+    return False
+
+
+def run_scenario(scn, voc):
+    """scn: {opts, version, outputs (None|int), files: [{name, derive, open, text, fail, doc, writes {(r,c): name}, save}]}
+    Runs the real main() with open / Document / Path replaced. Returns the canonical outcome line."""
+    from numbers_parser import _csv2numbers as c2n
+    files = {f["name"]: f for f in scn["files"]}
+
+    class FakeFile:
+        def __init__(self, f):
+            self.lines = list(io.StringIO(f["text"], newline=""))
+            self.fail = f["fail"]
+            self.i = 0
+
+        def __enter__(self):
+            return self
+
+        def __exit__(self, *a):
+            return False
+
+        def __iter__(self):
+            return self
+
+        def __next__(self):
+            if self.i < len(self.lines):
+                self.i += 1
+                return self.lines[self.i - 1]
+            if self.fail:
+                raise voc[self.fail]()
+            raise StopIteration
+
+    def fake_open(name, *a, **kw):
+        f = files[str(name)]
+        if f["open"]:
+            raise voc[f["open"]]()
+        current.append(f)
+        return FakeFile(f)
+
+    current: list = []
+
+    class FakeTable:
+        def __init__(self, f):
+            self.f = f
+
+        def write(self, r, c, v):
+            e = self.f["writes"].get((r, c))
+            if e:
+                raise voc[e]()
+
+        def set_cell_formatting(self, *a, **kw):
+            pass
+
+    class FakeSheet:
+        def __init__(self, f):
+            self.tables = [FakeTable(f)]
+
+    class FakeDocument:
+        def __init__(self, *a, **kw):
+            self.f = current[-1]
+            if self.f["doc"]:
+                raise voc[self.f["doc"]]()
+            self.sheets = [FakeSheet(self.f)]
+
+        def save(self, fn):
+            if self.f["save"]:
+                raise voc[self.f["save"]]()
+
+    class FakePath:
+        def __init__(self, x):
+            self.x = str(x)
+
+        def with_suffix(self, s):
+            f = files[self.x]
+            if f["derive"]:
+                raise voc[f["derive"]]()
+            return self.x + s
+
+    argv = ["csv2numbers", *scn["opts"]] + (["-V"] if scn["version"] else []) + [f["name"] for f in scn["files"]]
+    if scn["outputs"] is not None:
+        argv += ["-o"] + [f"out{i}.numbers" for i in range(scn["outputs"])]
+    saved = (c2n.Document, c2n.Path)
+    c2n.open = fake_open
+    c2n.Document, c2n.Path = FakeDocument, FakePath
+    try:
+        code, out, err, exc = run_main(c2n, argv)
+    finally:
+        del c2n.open
+        c2n.Document, c2n.Path = saved
+    if exc is not None:
+        return f"err {exc_name(exc)}", exc
+    return f"ok {code} {len(out.splitlines())} {len(err.splitlines())}", None
+
+
+def scenario_line(scn, cls_text, help_lines):
+    nh = "--no-header" in scn["opts"]
+    rv = "--reverse" in scn["opts"]
+    ws = "--whitespace" in scn["opts"]
+    parts = [f"csv main f {int(nh)} {int(rv)} {int(ws)} {int(scn['version'])} {'-' if scn['outputs'] is None else scn['outputs']} {help_lines}",
+             cls_text, f"files {len(scn['files'])}"]
+    for f in scn["files"]:
+        def res(x):
+            return "!" + x if x else "ok"
+        p = [res(f["derive"])]
+        if f["open"]:
+            p.append("!" + f["open"])
+        else:
+            p += ["T", enc_text(f["text"]), ("!" + f["fail"]) if f["fail"] else "-"]
+        p += [str(csv.field_size_limit()), res(f["doc"]), str(len(f["writes"]))]
+        for (r, c), e in sorted(f["writes"].items()):
+            p.append(f"{r} {c} !{e}")
+        p.append(res(f["save"]))
+        cells = []
+        seen = set()
+        try:
+            rows = list(csv.reader(io.StringIO(f["text"], newline=""), dialect="excel", strict=True))
+        except csv.Error:
+            rows = []
+        for row in rows:
+            for v in row:
+                if v in seen:
+                    continue
+                seen.add(v)
+                v2 = norm_ws(v)
+                k, x = classify(v2 if ws else v)
+                cells.append(f"{enc_text(v)} {enc_text(v2)} " + ("F0:-" if k == "F" else k))
+        p.append(f"table {len(cells)} " + " ".join(cells))
+        parts.append(" ".join(p))
+    return " ".join(parts)
+
+
+def new_file(name="in0.csv", text="h1,h2\r\n1,x\r\n", **kw):
+    f = {"name": name, "derive": None, "open": None, "text": text, "fail": None, "doc": None, "writes": {}, "save": None}
+    f.update(kw)
+    return f
+
+
+MAIN_TEXTS = ["", "\r\n", "\r\n\r\n", "h1,h2\r\n1,x\r\n", "h\r\n", "a", '"a"b\r\n', 'h\r\n"open', 'h1,h2\r\n1\r\n1,2,3\r\n', "h,h\r\na,b\r\n",
+              ",".join(f"c{i}" for i in range(1001)) + "\r\n", ",".join(f"c{i}" for i in range(1000)) + "\r\n",
+              "h\r\n" + "x" * 131073 + "\r\n", "h\r\nnan\r\ninf\r\n1e400\r\n", "a\rb\nc\r\n"]
+
+
+def oracle_scenario(ctx: Ctx, scn, outcome, exc, voc):
+    """'either succeeds or reports a one-line error and a non-zero exit status; it does not crash' — for faults the code is
+    expected to handle"""
+    if scn["version"] or not scn["files"]:
+        return
+    faults = []
+    for f in scn["files"]:
+        for site in ("derive", "open", "doc", "save"):
+            if f[site]:
+                faults.append((site, f[site]))
+        if f["fail"]:
+            faults.append(("iter", f["fail"]))
+        faults += [("write", e) for e in f["writes"].values()]
+    if scn["outputs"] is not None:
+        faults = [x for x in faults if x[0] != "derive"]      # Path.with_suffix is only called without -o
+    if not all(tame(site, voc[name]()) for site, name in faults):
+        return
+    inp = {"scenario": {**scn, "files": [{**f, "writes": [[r, c, e] for (r, c), e in f["writes"].items()]} for f in scn["files"]]}}
+    if exc is not None:
+        ctx.violation(f"csv-main-crash-{exc_name(exc)}", f"main() let {exc_name(exc)} escape: {str(exc)[:100]}", inp)
+        return
+    _, code, nout, nerr = outcome.split()
+    if not ((code == "0" and nerr == "0") or (code != "0" and nerr == "1")):
+        ctx.violation("csv-main-not-one-line", f"main() ended with exit {code} and {nerr} stderr lines", inp)
+
+
+def real_cases(ctx: Ctx):
+    """a dozen real situations through the real main() (no fakes): the oracle only"""
+    from numbers_parser import _csv2numbers as c2n
+    with tempfile.TemporaryDirectory() as d:
+        def mk(name, data: bytes):
+            p = os.path.join(d, name)
+            with open(p, "wb") as f:
+                f.write(data)
+            return p
+        out = os.path.join(d, "o.numbers")
+        cases = [
+            ("empty file", [mk("empty.csv", b""), "-o", out]),
+            ("empty file, --no-header", ["--no-header", mk("empty2.csv", b""), "-o", out]),
+            ("blank first line", [mk("blank.csv", b"\r\n"), "-o", out]),
+            ("blank first line, --no-header", ["--no-header", mk("blank2.csv", b"\r\n\r\n"), "-o", out]),
+            ("header only", [mk("hdr.csv", b"a,b\r\n"), "-o", out]),
+            ("a directory as input", [d, "-o", out]),
+            ("missing input", [os.path.join(d, "missing.csv"), "-o", out]),
+            ("bytes that are not UTF-8", [mk("latin.csv", b"a\xff\r\n1\r\n"), "-o", out]),
+            ("unknown encoding", ["--encoding", "no-such-codec", mk("x.csv", b"a\r\n1\r\n"), "-o", out]),
+            ("output folder does not exist", [mk("y.csv", b"a\r\n1\r\n"), "-o", os.path.join(d, "nodir", "o.numbers")]),
+            ("malformed quoting", [mk("bad.csv", b'"a"b\r\n'), "-o", out]),
+            ("1001 columns", [mk("wide.csv", b",".join(b"c%d" % i for i in range(1001)) + b"\r\n"), "-o", out]),
+            ("cell over the field limit", [mk("big.csv", b"a\r\n" + b"x" * 131073 + b"\r\n"), "-o", out]),
+            ("output count mismatch", [mk("z.csv", b"a\r\n"), "-o", out, out]),
+        ]
+        for what, argv in cases:
+            code, so, se, exc = run_main(c2n, ["csv2numbers", *argv])
+            inp = {"real_case": what, "argv": [a.replace(d, "<tmp>") for a in argv]}
+            ctx.count("real situations through main()", 1, exhaustive=False)
+            ctx.mark(("real", what))
+            if exc is not None:
+                ctx.violation(f"csv-crash-csv2numbers-{exc_name(exc)}", f"{what}: csv2numbers crashed with {exc_name(exc)}: {str(exc)[:100]}", inp)
+            elif not ((code == 0 and se == "") or (code != 0 and len(se.splitlines()) == 1)):
+                ctx.violation("csv-error-not-one-line", f"{what}: exit {code} with stderr {se[:200]!r}", inp)
+
+
+def run_main_faults(ctx: Ctx):
+    from numbers_parser import _csv2numbers as c2n
+    rng = ctx.rng
+    voc = exc_vocabulary()
+    names = sorted(voc)
+    cls_text = class_lists(voc)
+    help_lines = len(c2n.command_line_parser().format_help().splitlines())
+    scns = []
+    # every class at every site, header and --no-header
+    for opts in ([], ["--no-header"]):
+        for n in names:
+            scns.append({"opts": opts, "version": False, "outputs": None, "files": [new_file(derive=n)]})
+            scns.append({"opts": opts, "version": False, "outputs": 1, "files": [new_file(derive=n)]})
+            scns.append({"opts": opts, "version": False, "outputs": 1, "files": [new_file(open=n)]})
+            scns.append({"opts": opts, "version": False, "outputs": 1, "files": [new_file(fail=n)]})
+            scns.append({"opts": opts, "version": False, "outputs": 1, "files": [new_file(text="", fail=n)]})
+            scns.append({"opts": opts, "version": False, "outputs": 1, "files": [new_file(text='"a"b\r\n', fail=n)]})
+            scns.append({"opts": opts, "version": False, "outputs": 1, "files": [new_file(doc=n)]})
+            scns.append({"opts": opts, "version": False, "outputs": 1, "files": [new_file(writes={(0, 0): n})]})
+            scns.append({"opts": opts, "version": False, "outputs": 1, "files": [new_file(writes={(1, 1): n})]})
+            scns.append({"opts": opts, "version": False, "outputs": 1, "files": [new_file(save=n)]})
+    # texts x options
+    for t in MAIN_TEXTS:
+        for opts in ([], ["--no-header"], ["--reverse", "--whitespace"], ["--no-header", "--reverse"]):
+            scns.append({"opts": opts, "version": False, "outputs": 1, "files": [new_file(text=t)]})
+    # usage paths
+    scns.append({"opts": [], "version": True, "outputs": None, "files": []})
+    scns.append({"opts": [], "version": True, "outputs": 1, "files": [new_file()]})
+    scns.append({"opts": [], "version": False, "outputs": None, "files": []})
+    scns.append({"opts": [], "version": False, "outputs": 2, "files": [new_file()]})
+    scns.append({"opts": [], "version": False, "outputs": 0, "files": [new_file()]})
+    # seeded combinations, one or two files
+    for _ in range(1500 if ctx.quick else 15000):
+        nf = rng.choice([1, 1, 2])
+        fs = []
+        for i in range(nf):
+            f = new_file(name=f"in{i}.csv", text=rng.choice(MAIN_TEXTS[:10] + ["h1,h2\r\n1,x\r\n"] * 6))
+            for site in ("derive", "open", "fail", "doc", "save"):
+                if rng.random() < 0.15:
+                    f[site] = rng.choice(names)
+            if rng.random() < 0.15:
+                f["writes"] = {(rng.randrange(0, 3), rng.randrange(0, 3)): rng.choice(names)}
+            fs.append(f)
+        opts = [o for o in ("--no-header", "--reverse", "--whitespace") if rng.random() < 0.3]
+        scns.append({"opts": opts, "version": False, "outputs": rng.choice([None, nf, nf, nf, nf + 1]), "files": fs})
+    req, out = [], []
+    for scn in scns:
+        for f in scn["files"]:
+            if f["fail"] == "StopIteration":
+                f["fail"] = None          # an iterator that raises StopIteration simply ends: not a fault
+        outcome, exc = run_scenario(scn, voc)
+        oracle_scenario(ctx, scn, outcome, exc, voc)
+        req.append(scenario_line(scn, cls_text, help_lines))
+        out.append(outcome)
+    ctx.correspond("csv2numbers main() with scripted open / file iterator / Path / Document / write / save vs CsvMain.main",
+                   req, out, nontrivial=lambda r, o: " files 0" not in r)
+    real_cases(ctx)
 
 
 def run(ctx: Ctx):
-    n = 1200 if ctx.quick else 20000
-    tasks = [(ctx.seed, c) for c in CORPUS] + [(ctx.seed, i) for i in range(n)]
-    req, out = [], []
-    for r, o, dup in common.run_parallel(ctx, one, tasks):
-        if dup:
-            continue  # known finding (duplicate header): the model needs Nodup header; not part of the correspondence
-        req.append(r)
-        out.append(o)
-    ctx.correspond("generated grids through csv2numbers + cat-numbers -b (in-process mains)", req, out, keep=0)
-    ctx.subspaces.pop("grids", None)
-    ctx.evaluations -= n + len(CORPUS)
+    run_codec(ctx)
+    run_main_faults(ctx)
+    run_pipeline(ctx)
 
 
 def replay(data):
     i = data["input"]
+    if "codec_grid" in i:
+        t = impl_write(i["codec_grid"])
+        return {"grid": i["codec_grid"], "written": t, "read_back": impl_read(t, True)}
+    if "scenario" in i:
+        voc = exc_vocabulary()
+        scn = dict(i["scenario"])
+        scn["files"] = [{**f, "writes": {(r, c): e for r, c, e in f["writes"]}} for f in scn["files"]]
+        outcome, exc = run_scenario(scn, voc)
+        return {"scenario": i["scenario"], "outcome": outcome, "exception": repr(exc)}
+    if "real_case" in i:
+        return {"real_case": i["real_case"], "argv": i["argv"], "note": "re-run csv2numbers with these arguments (<tmp> = a scratch folder)"}
+    text = i["text"] if "text" in i else impl_write(i["grid"])
     with tempfile.TemporaryDirectory() as d:
-        res = roundtrip(i["grid"], i["opts"], d)
-    return {"grid": i["grid"], "opts": i["opts"], "result": res}
+        res = roundtrip(text, i["opts"], d)
+    return {"text": text, "opts": i["opts"], "result": res}
